@@ -172,6 +172,38 @@ theorem model_bext_accepted (g : Geom) (b : Bext) (hwf : b.wf) (pad : List Byte)
   rw [he] at hb; cases hb
   rw [hm, normBext_model g b hwf pad hpad declared]
 
+/-! ### cart info: from the model's record to the caller's struct bytes -/
+
+/-- SF_CART_INFO as the C struct lays the fields of `c` out: tag_text_size = `declared`, then the tag text -/
+def cartBlock (c : Cart) (declared : Nat) : List Byte := c.head ++ (c.reserved ++ (c.url ++ (le4 declared ++ c.tag)))
+
+/-- **normCart_model** — completeness of the `cart` clause against the model: for a well-formed block, `Sf.AbsMeta.normCart` on the
+    caller's struct bytes is the struct image of what the model's re-opened file returns (`Sf.Meta.normCart 0` = `reopenNow` after
+    `step (.setCart 0 …)`, theorem `C12Round.cart_set_reopen`; the byte behind an even-length text is masked on both sides) -/
+theorem normCart_model (c : Cart) (hwf : c.wf) (declared : Nat) :
+    AbsMeta.normCart (cartBlock c declared) = cartBlock (Sf.Meta.normCart 0 c) (Sf.Meta.normCart 0 c).tag.length := by
+  obtain ⟨h1, h2, h3⟩ := hwf
+  have s1 : seg (cartBlock c declared) 0 748 = c.head := seg_front _ _ _ h1
+  have s2 : seg (cartBlock c declared) 1024 1024 = c.url := by
+    unfold cartBlock
+    rw [seg_skip _ _ 1024 1024 748 h1 (by omega), seg_skip c.reserved _ 276 1024 276 h2 (by omega)]
+    exact seg_front _ _ _ h3
+  have s3 : (cartBlock c declared).drop 2052 = c.tag := by
+    unfold cartBlock
+    rw [show 2052 = 748 + 1304 by rfl, drop_front_add _ _ 748 1304 h1, show 1304 = 276 + 1028 by rfl, drop_front_add _ _ 276 1028 h2,
+      show 1028 = 1024 + 4 by rfl, drop_front_add _ _ 1024 4 h3, drop_front _ _ 4 (by simp)]
+  unfold AbsMeta.normCart
+  simp only [s1, s2, s3]
+  simp [cartBlock, Sf.Meta.normCart, setCart, Cart.reread, List.append_assoc]
+
+theorem model_cart_accepted (g : Geom) (c : Cart) (hwf : c.wf) (declared : Nat) (e : Exp) (m : Got) (hs : cartSupport g.cont = true)
+    (he : e.cart = some (cartBlock c declared))
+    (hm : m.cart = some (cartBlock (Sf.Meta.normCart 0 c) (Sf.Meta.normCart 0 c).tag.length)) : cartFail g e m = [] := by
+  rw [cartFail_nil_iff]
+  intro blob hb _
+  rw [he] at hb; cases hb
+  exact ⟨_, hm, by rw [normCart_model c hwf declared]⟩
+
 /-! ## non-vacuity: concrete records, judged by evaluation -/
 
 def gWav : Geom := { cont := .wav, ch := 2, sr := 44100, sub := 2, pkgName := ascii "libsndfile", pkgVersion := ascii "1.2.2" }
